@@ -190,6 +190,9 @@ func c13Snapshots(c *Ctx) {
 				if p.End == "return" && len(p.Vals) == 1 {
 					mk, isMk = p.Vals[0].(TBuiltin)
 				}
+				if r := v.asRange(loop); r != nil {
+					loop = r
+				}
 				switch {
 				case !isMk || mk.Name != "make":
 					msg = "the result is not a map created by make in this call"
